@@ -17,6 +17,10 @@ def wrapper_configs(adapter: Any, tier: str) -> List[Dict[str, Any]]:
         m = dict(clock[0])
         m["id"], m["mirror"] = m["id"] + "+mirror", True
         extra = [m]
+        # a tiny board on which clients play to win: episodes that end by completion (the whole board covered), several per run
+        win = dict([c for c in cfgs if c["id"] == "r4c3"][0])
+        win["id"], win["drive"] = "r4c3+win", True
+        extra.append(win)
     if tier == "quick":
         # one configuration in which episodes end often: tiny time limit, else the small quick config; plus, for the
         # multi-agent environments, a single-agent configuration (state leaves with an axis of size one next to the batch axis)
